@@ -17,7 +17,8 @@ def gen_expr(r, d=0):
         if k == 0:
             return ('num', r.choice(['0', '1', '2', '10', '3.5', '007', '12.50']))
         if k == 1:
-            return ('str', r.choice(['"s"', "'t'", '""', 'r"\\n"', '"a b"', '"#no comment"', '"semi;colon"']))
+            return ('str', r.choice(['"s"', "'t'", '""', 'r"\\n"', '"a b"', '"#no comment"', '"semi;colon"', '"f\x0cf"', '"u\u2028u"', '"two  blanks"', '"t\tab"',
+                                     '"%in string%"', '"100%"', "'q\x1cs'"]))
         if k == 2:
             return ('kw', r.choice(['True', 'False', 'None']))
         return ('name', r.choice(NAMES))
@@ -127,7 +128,9 @@ class Plain:
 
 
 COMMENT_PIECES = ['note', 'x,', ',', '+', '-', '*', '/', '**', 'and', 'or', 'not', 'in', 'if', 'else', '(', ')', '[', ']', '{', '}', '"', "'",
-                  '\\', '%', '%a%', '=>', '=', '==', ';', '#', ':', '.', '|', 'del', 'for', '\u03c0', '1', '1.5', 'amount,', 'total +']
+                  '\\', '%', '%a%', '=>', '=', '==', ';', '#', ':', '.', '|', 'del', 'for', '\u03c0', '1', '1.5', 'amount,', 'total +',
+                  # characters that str.splitlines() treats as line boundaries but the lexer does not
+                  'a\x0cb', 'v\x0bt', 'l\u2028s', 'p\u2029s', 'n\x85l', 'f\x1cs', 'g\x1ds', 'r\x1es']
 
 
 def comment_text(r):
@@ -280,7 +283,8 @@ def layout_pair(r, kinds=None):
 
 
 # ---------------------------------------------------------------- error positions (C20)
-STRAY = [')', ']', '}', '1', 'x', '"s"', ',', ':', '=>', '=', 'else', 'in', '+', '.', 'for', '$', '~', '&&']
+STRAY = [')', ']', '}', '1', 'x', '"s"', ',', ':', '=>', '=', 'else', 'in', '+', '.', 'for', '$', '~', '&&',
+         'null', 'true', 'false', 'none', 'nil', 'TRUE', 'NONE', 'True', 'None', 'and', 'not', 'del', 'while', '%p q%', '007', '1.5.2', '"unterminated']
 
 
 def error_text(r):
